@@ -7,6 +7,7 @@ import (
 	"go/printer"
 	"go/token"
 	"regexp"
+	"sort"
 	"strings"
 )
 
@@ -109,13 +110,15 @@ func c03Alpha(xs []string) []string {
 }
 
 // C03: syntactic facts of the elasticquota plugin that the model relies on (expectations: Ties/C03.lean).
-//   * PreFilter: order of refresh / snapshot / mask / leaf check / non-preemptible check / hook check / ancestor walk,
+//   - PreFilter: order of refresh / snapshot / mask / leaf check / non-preemptible check / hook check / ancestor walk,
 //     the operands of the two comparisons, the switches guarding refresh and walk, the status codes returned;
-//   * getQuotaInfoUsedLimit: runtime switch -> GetRuntime, else GetMax;
-//   * checkQuotaRecursive: root test, lookup, masked sum, comparison, recursion on ParentName;
-//   * Reserve / Unreserve -> ReservePod / UnreservePod, their guards, call order and the write lock;
-//   * UpdateQuota dispatch (meta unchanged / parent changed / reset), IsQuotaMetaChange's fields;
-//   * the used side of deleteQuotaNoLock, updateQuotaNoLockWhenParentChange and rebuildAllGroupQuotaNoLock:
+//   - getQuotaInfoUsedLimit: runtime switch -> GetRuntime, else GetMax;
+//   - checkQuotaRecursive: root test, lookup, masked sum, comparison, recursion on ParentName;
+//   - Reserve / Unreserve -> ReservePod / UnreservePod, their guards, call order and the write lock;
+//   - UpdateQuota dispatch (meta unchanged / parent changed / reset), IsQuotaMetaChange's fields;
+//   - the "is the update applied" gate: IsQuotaChange's comparisons with their operands as written (sorted), and where
+//     OnQuotaUpdate / UpdateQuota return on "no change";
+//   - the used side of deleteQuotaNoLock, updateQuotaNoLockWhenParentChange and rebuildAllGroupQuotaNoLock:
 //     guards and operands of every updateGroupDeltaUsedNoLock call, what the rebuild saves, what the reset clears.
 func init() {
 	extractors["C03"] = func(e *ext) {
@@ -458,7 +461,9 @@ func init() {
 				return true
 			})
 		}
-		emitList("changeGate", "IsQuotaChange: the comparisons in source order (operands as written)", chg)
+		// each entry returns true on a difference, so their order carries no meaning: canonical order
+		sort.Slice(chg, func(i, j int) bool { return c03Alpha(chg[i : i+1])[0] < c03Alpha(chg[j : j+1])[0] })
+		emitList("changeGate", "IsQuotaChange: the comparisons (operands as written), sorted", chg)
 		var gate []string
 		for _, g := range callsWithGuards(get(plug, "Plugin", "OnQuotaUpdate"), "IsQuotaChange") {
 			gate = append(gate, "OnQuotaUpdate: "+g)
@@ -493,6 +498,17 @@ func init() {
 			})
 		}
 		emitList("updateGate", "OnQuotaUpdate / UpdateQuota: where IsQuotaChange decides that an update is dropped", gate)
+		var inner []string
+		uqi := get(core, "GroupQuotaManager", "updateQuotaInternalNoLock")
+		for _, g := range callsWithGuards(uqi, "Equals") {
+			inner = append(inner, "Equals"+g)
+		}
+		for _, nm := range []string{"doUpdateOneGroupMaxQuotaNoLock", "doUpdateOneGroupMinQuotaNoLock"} {
+			for _, g := range callsWithGuards(uqi, nm) {
+				inner = append(inner, nm+": "+g)
+			}
+		}
+		emitList("internalGates", "updateQuotaInternalNoLock: operands of its Equals tests, and guards => operands of the max / min updates", inner)
 
 		// ---- used side of delete / re-parent / rebuild
 		emitList("deleteUsedDelta", "deleteQuotaNoLock: guards => operands of updateGroupDeltaUsedNoLock",
